@@ -408,10 +408,14 @@ func init() {
 		}
 		defer c.Close(nil)
 		pc := p.FirstConn()
-		bodies := [][]byte{[]byte("ping-a"), {}, []byte("ping-c")}
+		// the fourth and fifth heartbeat requests arrive with the gzip flag set (a compressed body shorter than the client's own threshold)
+		// and, on v2, with a metadata entry: the echo must be a frame the peer can decode to the same body
+		bodies := [][]byte{[]byte("ping-a"), {}, []byte("ping-c"), []byte("ping-gz-dddddddddddddddddddddddddddddd"), []byte("e")}
 		for i, b := range bodies {
 			if pc.ws != nil {
 				pc.WsControl(9, b)
+			} else if i >= 3 {
+				pc.Send(specFrame{typ: 1, cmd: 1, rid: uint32(500 + i), gzip: 1, body: stdCompress(b)})
 			} else {
 				pc.Send(specFrame{typ: 1, cmd: 1, rid: uint32(500 + i), body: b})
 			}
@@ -427,7 +431,13 @@ func init() {
 			}
 			if f.Typ == 2 && f.Cmd == 1 {
 				i := int(f.Rid) - 500
-				t.Check("echo", i >= 0 && i < len(bodies) && string(f.Body) == string(bodies[i]), "heartbeat response id %d body %q does not echo the request", f.Rid, f.Body)
+				body := f.Body
+				if f.Gzip == 1 {
+					k, pl := stdRead(body)
+					t.Check("echo", k == "ok", "heartbeat response id %d is flagged gzip but its body is not a gzip stream (%s): the peer cannot decode the echo", f.Rid, k)
+					body = pl
+				}
+				t.Check("echo", i >= 0 && i < len(bodies) && string(body) == string(bodies[i]), "heartbeat response id %d body %q does not echo the request", f.Rid, body)
 				echoes++
 			}
 		}
